@@ -142,7 +142,7 @@ PROPS["C15"] = {
     "verus": [],
     "kani": [],
     "witness_always": ["bw_pack"],
-    "witness_bound": {"bw_pack": "every list of <= 3 nodes over 22 node templates (chars incl. missing, rules, kerns, shifted h/v boxes, penalty, glue of all four orders with positive, zero, negative and cancelling amounts) x 9 targets x {exact, additional} = 201k calls (thorough tier: every list of <= 4 nodes, 4.4M calls) of the real HBox::pack against a per-order transcription of TeX.2021.649-667"},
+    "witness_bound": {"bw_pack": "every list of <= 3 nodes over 22 node templates (chars incl. missing, rules, kerns, shifted h/v boxes, penalty, glue of all four orders with positive, zero, negative and cancelling amounts) x 9 targets x {exact, additional} = 201k calls (thorough tier: every list of <= 4 nodes, 4.4M calls) of the real HBox::pack, plus 60000 pseudo-random lists of 4..9 nodes with dimensions outside the templates, against a per-order transcription of TeX.2021.649-667 (glue ratio checked as the signed equation natural width + ratio x total == box width)"},
     "explanation": "BOUNDED STAND-IN, NOT A PROOF. HBox::pack cannot be brought within either verifier's reach: Verus rejects the array/slice patterns the function is written in and the Rc<dyn Whatsit> variant of the node enum; Kani/CBMC did not finish within 15 minutes on the node enum's drop glue even for one-element lists. The contract (natural width = sum of item widths; height/depth = maxima with shifted boxes adjusted; glue order = highest order with non-zero total; ratio fills the box exactly; overfull shrinks by exactly its shrinkability; unset without the needed glue) is evaluated as an executable predicate on an exhaustively enumerated small domain of real calls.",
     "unverified_callers": ["FontRepo implementations (assumed total)", "lists longer than 3 nodes, Mark/Insertion/Adjust/Math nodes (todo!() in the code)"],
     "assumptions": [],
